@@ -83,6 +83,11 @@ def build_specs(rng):
                       comps=[''], probe='S-C08b'))
     specs.append(dict(name='trk', family='trk', sl=[pts(2), pts(1), pts(3)], comps=COMPS,
                       dpp={'fa': 1}, dps={'w': 2}, modes=['full', 'lazy_retry']))
+    # no per-streamline properties: the end of the point block is then the end of the record
+    specs.append(dict(name='trk_scalars_noprops', family='trk', sl=[pts(2), pts(3), pts(4)], comps=[''],
+                      dpp={'fa': 1}, dps={}, modes=['full', 'lazy_retry']))
+    specs.append(dict(name='trk_points_only', family='trk', sl=[pts(1), pts(3), pts(4)], comps=['', '.gz'],
+                      dpp={}, dps={}, modes=['full', 'lazy_retry']))
     specs.append(dict(name='trk_empty', family='trk', sl=[], comps=[''], dpp={}, dps={}))
     return specs
 
@@ -314,7 +319,7 @@ def run(chk: Check):
     chk.rule = ('every prefix length 0..len-1 of every member file written by every writable class: NIfTI-1 (.nii; with '
                 'an extension, big-endian), NIfTI-2, NIfTI-1/2 pairs (.hdr with extension, .img), Analyze, SPM99, SPM2 '
                 '(.hdr, .img, .mat), MGH/MGZ, CIFTI-2, GIFTI, TCK (3 streamlines; empty; streamlines starting with an '
-                'all-inf point), TRK (3 streamlines with scalars and properties; empty) x {plain, .gz, .bz2, .zst} x mmap '
+                'all-inf point), TRK (3 streamlines with scalars and properties; with scalars and no properties; points only; empty) x {plain, .gz, .bz2, .zst} x mmap '
                 '{True, False}; plus, on files with slabs above the fileslice skip threshold, partial reads img.dataobj[..., 1::2] '
                 'and [..., -1] at every cut; three successive reads from one lazily loaded TCK/TRK object at every cut; GIFTI '
                 'parsed with buffer_size 2048 and 3000 at every cut; the set of files and cut points is exhaustive and seed-independent, the seed only '
